@@ -82,6 +82,10 @@ def _bind(b, name, val):
     return True
 
 
+_MIRROR = {ast.Eq: ast.Eq, ast.NotEq: ast.NotEq, ast.Is: ast.Is, ast.IsNot: ast.IsNot,
+           ast.Lt: ast.Gt, ast.Gt: ast.Lt, ast.LtE: ast.GtE, ast.GtE: ast.LtE}
+
+
 def _match_seq(pats, nodes, b):
     # positional sequence with optional trailing $*rest
     if pats and isinstance(pats[-1], ast.Starred) and _mvname(pats[-1].value):
@@ -109,6 +113,18 @@ def _match(p, n, b):
                 return False
             return _match(p.value, n.value, b) and _bind(b, p.attr[4:], n.attr)
         if type(p) is not type(n):
+            return False
+        if isinstance(p, ast.Compare) and len(p.ops) == 1 and len(n.ops) == 1:
+            saved = dict(b)
+            if type(p.ops[0]) is type(n.ops[0]) and _match(p.left, n.left, b) and _match(p.comparators[0], n.comparators[0], b):
+                return True
+            b.clear()
+            b.update(saved)
+            mir = _MIRROR.get(type(n.ops[0]))
+            if mir is not None and mir is type(p.ops[0]) and _match(p.left, n.comparators[0], b) and _match(p.comparators[0], n.left, b):
+                return True
+            b.clear()
+            b.update(saved)
             return False
         if isinstance(p, ast.Call):
             if not _match(p.func, n.func, b):
